@@ -29,5 +29,5 @@ ScanLossless == P!ScanLossless(e)
 RECURSIVE Cat(_)
 Cat(cs) == IF cs = <<>> THEN "" ELSE Head(cs) \o Cat(Tail(cs))
 Out == IOEnv.OUT_FILE
-EmitCase == Emit => CSVWrite("%1$s", <<ToJson([text |-> Cat(P!NormalForm(e)), nq |-> Len(P!QNames(e))])>>, Out)
+EmitCase == Emit => CSVWrite("%1$s", <<ToJson([text |-> Cat(P!NormalForm(e)), nq |-> Len(P!QNames(e)), qn |-> [i \in DOMAIN P!QNames(e) |-> Cat(P!QNames(e)[i])]])>>, Out)
 =============================================================================
